@@ -116,6 +116,31 @@ def run(chk, repo, tier):
                    '' if explicit else f'relies on the default waveunit={dflt["waveunit"].value!r} of {site.callee.key}',
                    site.loc())
 
+    # the common grid spans [min, max] with a step no coarser than the requested one: ceil(span/step) + 1 samples
+    fic = repo.func('radiometry._interp_common')
+    _, gp, _ = analyse(repo, fic, types={('sym', 's1'): cls, ('sym', 's2'): cls})
+    okg, ng, detg = True, 0, ''
+    for p in returns(gp):
+        for e in p.events:
+            if e.kind == 'call' and e.data.get('callee') == 'ext:numpy.linspace':
+                a = e.data.get('args', [])
+                sm = p.calls('radiometry._sampling')
+                if len(a) < 3 or not sm:
+                    continue
+                ng += 1
+                lo, hi, num = a[0], a[1], a[2]
+                want = nf.ceil((hi - lo) / sm[0].result) + 1
+                got = nf.strip_apps(num, ('cast', 'int', 'copy'))
+                ia = got.single_atom() if isinstance(got, Poly) else None
+                if ia is not None and is_app(ia, 'int'):
+                    got = ia[2][0]
+                # int(x) + 1 with x = ceil(...)
+                flat = nf.subst_value(num, {b: b[2][0] for b in nf.value_atoms(num) if is_app(b, 'int') and isinstance(b[2][0], Poly)})
+                if flat != want:
+                    okg, detg = False, f'linspace(..., num={fmt(num)[:120]}); expected ceil(span/step) + 1'
+    chk.ob('C13-f', 'N-formula', fic.key, 'common grid has ceil(span/step) + 1 samples (never coarser than the requested sampling)',
+           (okg and ng > 0) if (ng or not okg) else None, detg or f'{ng} grid construction(s)', fic.loc())
+
     # ---------------------------------------------------------------- C13-e
     fu = repo.func(f'{SPEC}._ufunc')
     _, paths, _ = analyse(repo, fu)
